@@ -457,6 +457,10 @@ class RDFReader(object):
 
         :return: list of converted odML documents
         """
+        # Return the documents of the current graph only, not the documents
+        # an earlier conversion of this reader has returned as well.
+        self.docs = []
+
         docs_uris = list(self.graph.objects(subject=URIRef(ODML_NS.Hub),
                                             predicate=ODML_NS.hasDocument))
         for doc in docs_uris:
